@@ -1,4 +1,5 @@
 import KoordVerif.Model.C17
+import KoordVerif.Model.C17Cache
 import KoordVerif.Generated.C17
 /-
 Tie lemmas: the guard order the model assumes is the guard order of /repo's current controller.go
@@ -52,5 +53,22 @@ theorem tie_getReservation_calls : C17.getReservationCalls = ["Get", "IsNotFound
 /-- `interpreterImpl.DeleteReservation` = lookup by NAME, then Delete of the object found — no further condition
     (model: `deleteReservation` / `deleteReservationX`) -/
 theorem tie_deleteReservation_calls : C17.deleteReservationCalls = ["GetReservation", "Delete", "OriginObject"] := by decide
+
+/-! ### ext3: the assumed-cache call order, the forced allocate-once, the scheduler's syncStatus -/
+
+/-- `Reconcile`: job Get · stale-read guard · doMigrate · `assume(job)` as a PLAIN call after doMigrate with the object
+    doMigrate wrote through (model: `recLag .afterWrite`; a `defer assume(job.DeepCopy())` ahead of doMigrate is
+    `Policy.asRead`, refuted by assume_as_read_re_evicts_counterexample) -/
+theorem tie_reconcile_assume_after_write : C17.reconcileOrder = reconcileOrder := by decide
+
+/-- `CreateOrUpdateReservationOptions`: exactly one assignment to `…AllocateOnce`, unconditional, the constant true
+    (model: `writtenResv … .ao = some true` for every template) -/
+theorem tie_allocate_once_forced : C17.allocateOnceAssign = ["0:ptr.To[bool](true)"] := by decide
+
+/-- scheduler `syncStatus`: `SetReservationSucceeded` exactly under `IsReservationAllocateOnce` (model: `consume`), and
+    nil defaults to true (model: `effAO`) -/
+theorem tie_syncStatus_succeeded_iff_allocate_once :
+    C17.syncStatusSucceededCond = "apiext.IsReservationAllocateOnce(reservation)" ∧
+    C17.isAllocateOnceReturns = ["ptr.Deref[bool](r.Spec.AllocateOnce, true)"] := by decide
 
 end KoordVerif.C17
